@@ -1,8 +1,8 @@
 #!/bin/bash
 # Runs every thorough check sequentially from a private copy of the binary, output under /tmp/bg (not evidence).
-mkdir -p /tmp/bg/all && cp /verif/.build/lunarmc /verif/.build/lunarmc-race /tmp/bg/all/ 2>/dev/null; cp /verif/KNOWN_FINDINGS.txt /tmp/bg/all/; cp /verif/.build/icu_months.txt /tmp/bg/all/ 2>/dev/null
-cd /tmp/bg/all
+mkdir -p ${TA_DIR:-/tmp/bg/all} && cp /verif/.build/lunarmc /verif/.build/lunarmc-race ${TA_DIR:-/tmp/bg/all}/ 2>/dev/null; cp /verif/KNOWN_FINDINGS.txt ${TA_DIR:-/tmp/bg/all}/; cp /verif/.build/icu_months.txt ${TA_DIR:-/tmp/bg/all}/ 2>/dev/null
+cd ${TA_DIR:-/tmp/bg/all}
 for c in ${@:-C08 C09 C10 C11 C18 C19 C01 C05 C06 C07 C13 C15 C17 C12 C14 C16 C02 C03 C04 C20}; do
-  echo "=== $c $(date +%T)"; VERIF_DIR=/tmp/bg/all timeout 7200 ./lunarmc check $c thorough 2>&1 | grep -E "^(VIOLATION|KNOWN|ERROR|$c tier)|^  fp=" | cut -c1-300 | head -40
+  echo "=== $c $(date +%T)"; VERIF_DIR=${TA_DIR:-/tmp/bg/all} timeout 7200 ./lunarmc check $c thorough 2>&1 | grep -E "^(VIOLATION|KNOWN|ERROR|$c tier)|^  fp=" | cut -c1-300 | head -40
 done
 echo "=== done $(date +%T)"
